@@ -504,7 +504,7 @@ def check_property(pid, obligations, tier, jobs, only=None, keep_work=False, see
         elif r.status == "undecided":
             undecided.append(r)
     wall = time.time() - t0
-    write_evidence(pid, tier, seed, results, violations, undecided, known_hits, wall)
+    write_evidence(pid, tier, seed, results, violations, undecided, known_hits, wall, partial=bool(only))
     for r, k in known_hits:
         print("KNOWN-FINDING: property=%s %s" % (pid, k["text"]))
     for r, path, reproduced in violations:
@@ -551,7 +551,7 @@ def scan_assumptions(results):
     return sorted(out)
 
 
-def write_evidence(pid, tier, seed, results, violations, undecided, known_hits, wall):
+def write_evidence(pid, tier, seed, results, violations, undecided, known_hits, wall, partial=False):
     os.makedirs(os.path.join(VERIF, "evidence"), exist_ok=True)
     proof = [r for r in results if r.ob["kind"] in ("U", "F")]
     bounded = [r for r in results if r.ob["kind"] == "B"]
@@ -600,7 +600,12 @@ def write_evidence(pid, tier, seed, results, violations, undecided, known_hits, 
     }
     if known_hits:
         ev["coverage"]["known_findings"] = [k["text"] for _, k in known_hits]
-    with open(os.path.join(VERIF, "evidence", pid + ".json"), "w") as f:
+    # partial runs (--only) and runs against a deliberately patched tree (VERIF_SCRATCH_EVIDENCE=1) never touch the
+    # evidence file that gets committed
+    dest = os.path.join(VERIF, "evidence", pid + ".json")
+    if partial or os.environ.get("VERIF_SCRATCH_EVIDENCE"):
+        dest = os.path.join(WORK, "evidence-scratch-" + pid + ".json")
+    with open(dest, "w") as f:
         json.dump(ev, f, indent=1)
 
 
